@@ -11,6 +11,7 @@ inductive Item where
   | lenOf (field : String) (width : Nat)      -- `len(<field>).to_bytes(width, byteorder="little")`
   | bytes (field : String)                    -- a bytes-valued field, local or nested `pack()`
   | const (b : Bytes)                         -- a bytes literal
+  | lenPlus (k : Nat) (field : String) (width : Nat)  -- `(k + len(<field>)).to_bytes(width, byteorder="little")`
   deriving DecidableEq, Repr
 
 structure Env where
@@ -35,5 +36,10 @@ def pack (env : Env) : List Item → R Bytes
   | .const c :: rest => do
     let b ← pack env rest
     pure (c ++ b)
+  | .lenPlus k f w :: rest => do
+    let x ← env.bytes f
+    let a ← Py.toBytesLE ((k + x.length : Nat) : Int) w
+    let b ← pack env rest
+    pure (a ++ b)
 
 end DpapiNg.Layout
